@@ -34,7 +34,7 @@ def read_phs(root, proxies=None) -> list[dict]:
         ext = xf.find("{%s}ext" % A) if xf is not None else None
         own = off is not None and ext is not None
         cnv = next(el.iter("{%s}cNvPr" % P))
-        rec = {"type": ph.get("type", "obj"), "idx": int(ph.get("idx", "0")), "orient": ph.get("orient", "horz"), "sz": ph.get("sz", "full"),
+        rec = {"car": etree.QName(el).localname, "type": ph.get("type", "obj"), "idx": int(ph.get("idx", "0")), "orient": ph.get("orient", "horz"), "sz": ph.get("sz", "full"),
                "own": own, "x": int(off.get("x")) if own else 0, "y": int(off.get("y")) if own else 0,
                "cx": int(ext.get("cx")) if own else 0, "cy": int(ext.get("cy")) if own else 0, "name": cnv.get("name", ""),
                "rd": False, "rx": 0, "ry": 0, "rcx": 0, "rcy": 0}
@@ -83,7 +83,19 @@ def ph_xml(i: int, p: dict) -> str:
         attrs += ' orient="%s"' % p["orient"]
     if p["sz"] != "full":
         attrs += ' sz="%s"' % p["sz"]
-    xfrm = ('<a:xfrm><a:off x="%d" y="%d"/><a:ext cx="%d" cy="%d"/></a:xfrm>' % (100000 * i, 0 if i % 2 == 0 else 200000 * i, 3000000 + 1000 * i, 1000000 + 7 * i)) if p["own"] else ""   # first one sits at (0, 0)
+    geo = (100000 * i, 0 if i % 2 == 0 else 200000 * i, 3000000 + 1000 * i, 1000000 + 7 * i)
+    car = p.get("car", "sp")
+    if car == "pic":         # a picture placeholder that was filled on the layout
+        return ('<p:pic xmlns:p="%s" xmlns:a="%s"><p:nvPicPr><p:cNvPr id="%d" name="Gen Placeholder %d"/><p:cNvPicPr><a:picLocks noGrp="1"/></p:cNvPicPr>'
+                '<p:nvPr><p:ph%s/></p:nvPr></p:nvPicPr><p:blipFill><a:blip/><a:stretch><a:fillRect/></a:stretch></p:blipFill><p:spPr>%s</p:spPr></p:pic>'
+                % (P, A, i + 2, i + 1, attrs, ('<a:xfrm><a:off x="%d" y="%d"/><a:ext cx="%d" cy="%d"/></a:xfrm>' % geo) if p["own"] else ""))
+    if car == "gf":          # a table / chart / diagram placeholder that was filled on the layout
+        return ('<p:graphicFrame xmlns:p="%s" xmlns:a="%s"><p:nvGraphicFramePr><p:cNvPr id="%d" name="Gen Placeholder %d"/><p:cNvGraphicFramePr>'
+                '<a:graphicFrameLocks noGrp="1"/></p:cNvGraphicFramePr><p:nvPr><p:ph%s/></p:nvPr></p:nvGraphicFramePr>'
+                '<p:xfrm><a:off x="%d" y="%d"/><a:ext cx="%d" cy="%d"/></p:xfrm><a:graphic><a:graphicData '
+                'uri="http://schemas.openxmlformats.org/drawingml/2006/table"><a:tbl><a:tblPr/><a:tblGrid/></a:tbl></a:graphicData></a:graphic>'
+                '</p:graphicFrame>' % ((P, A, i + 2, i + 1, attrs) + geo))
+    xfrm = ('<a:xfrm><a:off x="%d" y="%d"/><a:ext cx="%d" cy="%d"/></a:xfrm>' % geo) if p["own"] else ""   # first one sits at (0, 0)
     return ('<p:sp xmlns:p="%s" xmlns:a="%s"><p:nvSpPr><p:cNvPr id="%d" name="Gen Placeholder %d"/><p:cNvSpPr><a:spLocks noGrp="1"/></p:cNvSpPr>'
             '<p:nvPr><p:ph%s/></p:nvPr></p:nvSpPr><p:spPr>%s</p:spPr><p:txBody><a:bodyPr/><a:lstStyle/><a:p><a:endParaRPr lang="en-US"/></a:p></p:txBody></p:sp>'
             % (P, A, i + 2, i + 1, attrs, xfrm))
